@@ -18,7 +18,7 @@ RUN_LIMIT_CPU_S = 600     # one run enumerates hundreds of fault positions in th
 BUDGET = {'quick': 25, 'thorough': 300}
 BLOCK = 8
 STREAM_ORDER = ['ops', 'guards', 'faults', 'chart', 'cfg']
-RULE = (common.GEN + 'the monitored chart sends events (with delays) and notifies; listeners: a plain recording callable (attach), a recording '
+RULE = (common.GEN + 'the monitored chart sends events (with delays) and notifies, in a third of the runs it carries contracts that are checked; listeners read every documented attribute of every meta-event; listeners: a plain recording callable (attach), a recording '
         'property statechart (bind_property_statechart, built through interpreter_klass so that it shares a recorder) and a tripwire property '
         'statechart that becomes final at its k-th meta-event. Run A (no tripwire): the stream both recorders saw must equal the stream derived '
         'from the returned micro steps, the property chart own clock must equal the monitored step time, and the macro steps must equal those '
@@ -72,11 +72,22 @@ def norm(name, data):
     return (name, tuple(out))
 
 
+DOCUMENTED = {'step started': ('time',), 'step ended': (), 'event consumed': ('event',), 'event sent': ('event',),
+              'state exited': ('state',), 'state entered': ('state',), 'transition processed': ('source', 'target', 'event')}
+
+
+def read_attributes(me):
+    """what a listener does with a meta-event: read its documented attributes (an eventless transition has event None, an
+    internal one target None)"""
+    return tuple((k, getattr(me, k) is me.data.get(k, KeyError)) for k in DOCUMENTED.get(me.name, ()))
+
+
 class Q:
     def __init__(self):
         self.seen = []
 
     def rec(self, event, time):
+        read_attributes(event)
         self.seen.append((norm(event.name, event.data), time))
 
 
@@ -86,6 +97,7 @@ class Plain:
         self.seen = []      # (normalised meta-event, len(P.log) at emission)
 
     def __call__(self, me):
+        self.attrs_ok = getattr(self, 'attrs_ok', True) and all(ok for _, ok in read_attributes(me))
         self.seen.append((norm(me.name, me.data), len(self.sim.P.log)))
 
 
@@ -134,14 +146,17 @@ def positions(sp, r):
         if r.ms.event is not None:
             out.append(n)           # event consumed: after selection, before any code
         for m in r.ms.steps:
+            # with contract checking on, the conditions are evaluated at the points C08 documents, and the notification of
+            # something that happened follows the conditions attached to it
             for sname in m.exited_states:
-                n += 1 + len(sp.states[sname].exit_sends)
+                n += 1 + len(sp.states[sname].exit_sends) + len(sp.states[sname].post)
                 out.append(n)
             if m.transition is not None:
-                n += 1 + len(sp.trans[tid(m.transition)].sends)
+                t = sp.trans[tid(m.transition)]
+                n += 1 + len(t.sends) + len(t.pre) + len(t.post) + 2 * len(t.inv)
                 out.append(n)
             for sname in m.entered_states:
-                n += 1 + len(sp.states[sname].entry_sends)
+                n += 1 + len(sp.states[sname].entry_sends) + len(sp.states[sname].pre)
                 out.append(n)
             for e in m.sent_events:
                 out.append(n)       # sent events are raised once the micro step's code has run
@@ -153,14 +168,15 @@ def positions(sp, r):
 def run(ch, tier):
     res = Result()
     cs = ch.s('cfg')
-    cfg = swarm(cs, Cfg(sends=True, notify=True, delays=True), tier)
+    contracts = cs.flag(1, 3)
+    cfg = swarm(cs, Cfg(sends=True, notify=True, delays=True, contracts=contracts), tier)
     trip_first = cs.flag(1, 2)
     skew = cs.flag(1, 2)        # the monitored clock moves at every read: the property chart must still see the frozen step time
     mkclock = (lambda: SkewClock()) if skew else (lambda: SimClock())
     sp = gen_spec(ch.s('chart'), cfg)
     cfp = fp(sp.fingerprint())
     # ---------------- run A
-    a = Sim(sp, clock=mkclock())
+    a = Sim(sp, clock=mkclock(), ignore_contract=not contracts)
     plain = Plain(a)
     q = Q()
     a.it.attach(plain)
@@ -177,7 +193,19 @@ def run(ch, tier):
         if not r.init:
             legal_or_abandon(sp, r.pre, 'C10')
         if r.exc is not None and not (r.sel is not None and r.sel.err and type(r.exc).__name__ == r.sel.err):
-            raise Abandon('other: unexpected %s in the fault-free twin' % r.exc_name())
+            # nothing in this run may fail: either the same inputs fail without any listener too (not this property), or
+            # monitoring changed the run
+            c = Sim(sp, clock=mkclock(), ignore_contract=not contracts)
+            last = None
+            for last in replay_script(c, a.script):
+                pass
+            if last is not None and last.exc_name() == r.exc_name():
+                raise Abandon('other: unexpected %s in the fault-free twin' % r.exc_name())
+            return res.fail('intrusive', 'step %d raised %s (%s) with a recording listener and a never-final property statechart attached; the '
+                            'same inputs without them end with %s' % (r.k, r.exc_name(), str(r.exc)[:100], last and last.exc_name()),
+                            chart=sp.describe(), listener_saw=[x[0] for x in plain.seen[pos:]][:30])
+        if not getattr(plain, 'attrs_ok', True):
+            return res.fail('meta-event-attributes', 'a documented attribute read through the meta-event differs from its data', chart=sp.describe())
         want = derive(r, r.T)
         got_all = plain.seen[pos:]
         got = [x[0] for x in got_all if x[0][0] != 'delayed event sent']
@@ -220,7 +248,7 @@ def run(ch, tier):
     L = list(a.P.log)
     n = len(plain.seen)
     # ---------------- run C: no listener at all (non-intrusive)
-    c = Sim(sp, clock=mkclock())
+    c = Sim(sp, clock=mkclock(), ignore_contract=not contracts)
     for i, r in enumerate(replay_script(c, script)):
         if (sig(r.ms), sorted(r.post), r.exc_name()) != sigs[i]:
             return res.fail('intrusive', 'step %d differs between a monitored and an unmonitored run: %r vs %r' % (
@@ -237,7 +265,7 @@ def run(ch, tier):
     else:
         ks = sorted(set(1 + fs.choice(n) for _ in range(10)))
     for k in ks:
-        b = Sim(sp, clock=mkclock())
+        b = Sim(sp, clock=mkclock(), ignore_contract=not contracts)
         pb = Plain(b)
         ctxp = {'K': k}
         mk = lambda sc, clock: Interpreter(sc, clock=clock, initial_context=ctxp)   # noqa
